@@ -224,6 +224,7 @@ pub struct ZervCall {
     /// run this executable instead of ctx.zerv (e.g. a symlink to it)
     pub exe: Option<PathBuf>,
     pub umask: Option<u32>,
+    pub cpus: Option<usize>,
 }
 
 impl ZervCall {
@@ -241,6 +242,7 @@ impl ZervCall {
             stderr: crate::proc::Stdout::Capture,
             exe: None,
             umask: None,
+            cpus: None,
         }
     }
     pub fn args_string(&self) -> String {
@@ -284,6 +286,7 @@ pub fn run_zerv(ctx: &Ctx, rd: &RunDir, call: &ZervCall, stats: &mut Stats) -> O
         stdout: call.stdout,
         stderr: call.stderr,
         umask: call.umask,
+        cpus: call.cpus,
     };
     stats.zerv_spawns += 1;
     proc::run(&spec)
